@@ -1,6 +1,7 @@
 import DM.Drv.Util
 import DM.Lemmas.PathCheck
 import DM.Model.Pixels
+import DM.Model.Path
 namespace DM.Drv
 open DM.Lemmas DM.Model DM.Spec.Fill
 
@@ -34,8 +35,22 @@ def pathDiag (bits : List Bool) (w : Nat) (segs : List Seg) : String :=
     | (x, y) :: _ => s!"fail:module ({x},{y}) is {if bits.getD (y * w + x) false then "dark" else "light"} but fill says otherwise"
     | [] => "fail:edge-multiset differs from the outline (fill agrees)"
 
+/-- the model of `Bitmap::path()` in the harness's notation -/
+def pathModelStr (bits : List Bool) (w : Nat) : String :=
+  match DM.Model.Path.path bits w with
+  | .error .expect => "panic-expect"
+  | .error .fuel => "model-out-of-fuel"
+  | .error .overflow => "panic-overflow"
+  | .ok [] => "-"
+  | .ok p => ".".intercalate (p.map fun s => match s with
+      | .m dx dy => s!"m{dx}:{dy}"
+      | .h d => s!"h{d}"
+      | .v d => s!"v{d}"
+      | .z => "z")
+
 def c17 (args : List String) : Option String :=
   match args with
+  | ["pathm", w, b] => some (pathModelStr (unpackBits b) w.toNat!)
   | ["path", w, b, p] =>
     let bits := unpackBits b
     let w := w.toNat!
